@@ -16,15 +16,16 @@ func deleteChildOperator(d *dataTreeNavigator, context Context, expressionNode *
 		candidate := el.Value.(*CandidateNode)
 
 		if candidate.Parent == nil {
-			// must be a top level thing, delete it
-			return removeFromContext(context, candidate)
+			// must be a top level thing, delete it (there can be several: documents evaluated together)
+			context, err = removeFromContext(context, candidate)
+			if err != nil {
+				return Context{}, err
+			}
+			continue
 		}
 		log.Debugf("processing deletion of candidate %v", NodeToString(candidate))
 
 		parentNode := candidate.Parent
-
-		candidatePath := candidate.GetPath()
-		childPath := candidatePath[len(candidatePath)-1]
 
 		if parentNode.Kind == MappingNode {
 			// locate the entry itself: comparing key text with the parsed path element
@@ -33,9 +34,8 @@ func deleteChildOperator(d *dataTreeNavigator, context Context, expressionNode *
 				// remove that entry and no other: an integer key and a string key can have the same text ({1: a, "1": b})
 				keyIndex := index - index%2
 				parentNode.Content = append(append(make([]*CandidateNode, 0, len(parentNode.Content)), parentNode.Content[:keyIndex]...), parentNode.Content[keyIndex+2:]...)
-			} else {
-				deleteFromMap(candidate.Parent, childPath)
 			}
+			// a node that is not an entry of its parent was computed from one (.a | length): nothing of the document is selected
 		} else if parentNode.Kind == SequenceNode {
 			// the key recorded on an element can be stale (sort, reverse, slices, collect, +
 			// keep the index an element had in its old container), so locate the element itself.
@@ -69,26 +69,6 @@ func removeFromContext(context Context, candidate *CandidateNode) (Context, erro
 		}
 	}
 	return context.ChildContext(newResults), nil
-}
-
-func deleteFromMap(node *CandidateNode, childPath interface{}) {
-	log.Debug("deleteFromMap")
-	contents := node.Content
-	newContents := make([]*CandidateNode, 0)
-
-	for index := 0; index < len(contents); index = index + 2 {
-		key := contents[index]
-		value := contents[index+1]
-
-		shouldDelete := key.Value == childPath
-
-		log.Debugf("shouldDelete %v? %v == %v = %v", NodeToString(value), key.Value, childPath, shouldDelete)
-
-		if !shouldDelete {
-			newContents = append(newContents, key, value)
-		}
-	}
-	node.Content = newContents
 }
 
 func deleteFromArray(node *CandidateNode, childPath interface{}) {
